@@ -105,6 +105,7 @@ type Sub struct {
 	EntryTask   []int
 	Worker      []int // consumer index per execution (C13)
 	Purged      uint64 // seq at which a purge removed it
+	PurgeTask   int    // task that removed it
 	IDSeen      string
 	StatusInFn  string
 	AckIDs      []string
